@@ -145,6 +145,19 @@ def run(ck):
     # 3. code -> spec: real executions of f_or / f_and with concurrent completers, judged by TLC
     tasks = make_tasks(rng, 450 if quick else 10000, gen)
     require_complete(ck, ck.run_and_validate(tasks, TRACE))
+    # directed two-preemption sweeps: two completers finishing at the same instant, and a completer racing a cancel
+    # of the output (line granularity)
+    from .. import core as _core
+    swept = []
+    for op in ['or', 'and']:
+        for kinds in ((1, 2), (2, 1), (3, 1), (1, 1)):
+            params = {"op": op, "inputs": [{"kind": kinds[0], "at": 100}, {"kind": kinds[1], "at": 100}], "cancel_at": 100,
+                      "horizon": 800}
+            swept += _core.phase_tasks("combinators", params,
+                                       [("comp1", "comp2"), ("comp2", "comp1"), ("comp1", "can1"), ("can1", "comp2")],
+                                       range(2, 40, 4 if quick else 1), range(2, 26, 5 if quick else 1),
+                                       facts={"op": op})
+    ck.run_and_validate(swept, TRACE, nontrivial=lambda t, r: True)
     ck.assumptions += [
         "a completion linearises between its InputSetCall and InputSetRet, and for the combinator not before "
         "the combinator was called (already-done inputs count as concurrent with each other)",
